@@ -177,18 +177,43 @@ def run(ctx):
             except OSError:
                 pass
         outfile = os.path.join(ctx.work, "result-%s.ndjson" % name)
-        ctx.run_driver(binary, ["run", casefile, outfile], timeout=14400, env={"VERIF_SEED": str(ctx.seed)})
-        reps, summary = [], None
-        with open(outfile) as f:
-            for line in f:
-                o = json.loads(line)
-                if o["type"] == "summary":
-                    summary = o["stats"]
-                else:
-                    o["job"] = name
-                    reps.append(o)
-        if summary is None:
+        p = ctx.run([binary, "run", casefile, outfile], timeout=14400, env={"VERIF_SEED": str(ctx.seed)})
+        reps, summary, last, aborted = [], None, None, False
+        if os.path.exists(outfile):
+            with open(outfile) as f:
+                for line in f:
+                    try:
+                        o = json.loads(line)
+                    except ValueError:
+                        continue        # torn last line of a dead driver
+                    if o["type"] == "summary":
+                        summary = o["stats"]
+                    elif o["type"] == "begin":
+                        last = o["case"]
+                    elif o["type"] == "aborted":
+                        aborted = True
+                    else:
+                        o["job"] = name
+                        reps.append(o)
+        if p.returncode != 0:
+            tail = (p.stdout[-1500:] + p.stderr[-6000:])
+            crashed = any(sig in p.stderr for sig in ("fatal error:", "panic:", "SIGSEGV", "SIGBUS", "unexpected signal")) and last is not None
+            if not crashed:
+                raise vlib.Inconclusive("driver filter run %s exited %d:\n%s" % (name, p.returncode, tail[-3000:]))
+            # the process running the real gateway died inside the code under test: an observation, not an infrastructure problem
+            crashcase = None
+            with open(casefile) as f:
+                for i, line in enumerate(f):
+                    if i == last:
+                        crashcase = json.loads(line)
+            first = [l for l in p.stderr.splitlines() if l.startswith(("fatal error:", "panic:"))][:1]
+            reps.append(dict(type="mismatch", job=name, case=last, query=0, round=1, route="bucket", **{"class": "unexplained"},
+                             detail="the gateway process died (%s) while running this case: %s" % (first, p.stderr[-1200:]),
+                             observed=None, other_route=None, case_json=crashcase))
+        elif summary is None and not aborted:
             raise vlib.Inconclusive("driver wrote no summary for %s" % name)
+        if summary is None:
+            summary = {}
         sample = None
         with open(casefile) as f:
             for i, line in enumerate(f):
@@ -222,6 +247,7 @@ def run(ctx):
 
     # ---------------------------------------------------------------- 3. classify
     nshown = {}
+    reports.sort(key=lambda o: o["job"] != "witness")      # the minimal witnesses first: they become the KNOWN-FINDING text
     for o in reports:
         case = o.get("case_json")
         qi = o.get("query", 0)
